@@ -6,7 +6,7 @@ using namespace c18;
 static rc::Gen<Case> genCase() {
     return rc::gen::exec([]() {
         Case c;
-        c.size = *vprc::uni<size_t>(1, 64);
+        c.size = *rc::gen::weightedOneOf<size_t>({{8, vprc::uni<size_t>(1, 64)}, {1, rc::gen::element<size_t>(255, 256, 257, 65535, 65536, 65537)}});
         c.used = *vprc::uni<size_t>(0, c.size);
         c.offset = *vprc::uni<size_t>(0, c.used);
         size_t n = *rc::gen::inRange<size_t>(0, 501);
@@ -14,7 +14,7 @@ static rc::Gen<Case> genCase() {
         c.ops = *rc::gen::container<std::vector<Op>>(n, rc::gen::exec([size]() {
             int k = *rc::gen::weightedElement<int>({{6, ADD}, {5, CONSUME}, {4, ATMOST}, {3, REWIND}, {1, RESET}, {1, CLEAR}, {1, REPEAT}, {1, QUERY}});
             // operands: mostly small, sometimes around the size
-            size_t n = *rc::gen::weightedOneOf<size_t>({{6, vprc::uni<size_t>(0, 8)}, {2, vprc::uni<size_t>(0, size + 1)}, {(k == CONSUME || k == ATMOST) ? 1 : 0, rc::gen::map(vprc::uni<size_t>(0, 70), [](size_t d) { return (size_t)SIZE_MAX - d; })}});
+            size_t n = *rc::gen::weightedOneOf<size_t>({{6, vprc::uni<size_t>(0, 8)}, {2, vprc::uni<size_t>(0, size + 1)}, {size > 64 ? 3 : 0, rc::gen::map(vprc::uni<size_t>(0, 4), [size](size_t d) { return size / 2 + d; })}, {(k == CONSUME || k == ATMOST) ? 1 : 0, rc::gen::map(vprc::uni<size_t>(0, 70), [](size_t d) { return (size_t)SIZE_MAX - d; })}});
             return Op{k, n};
         }));
         return c;
@@ -49,7 +49,7 @@ static std::string oracle(const Case &c) {
 }
 
 static void run() {
-    vp::stats().rule = "rc: random histories (<=500 ops) on buffers of size 1..64, operand lengths 0..size+1, weighted to add/consume/rewind";
+    vp::stats().rule = "rc: random histories (<=500 ops) on buffers of size 1..64 and 255..257 / 65535..65537, operand lengths 0..size+1, weighted to add/consume/rewind";
     vprc::check<Case>("byte buffer follows the list model", genCase(), oracle, [](const Case &c) { return serialise(c); });
 }
 static bool replay(const std::string &text) {
